@@ -110,6 +110,36 @@ def _escaping_names(body):
     return out
 
 
+def _child_share_roots(body):
+    """names one of whose entries may become shared with another name / container somewhere in the statements (superset)"""
+    out = set()
+
+    def root(n):
+        while isinstance(n, (ast.Subscript, ast.Attribute)):
+            n = n.value
+        return n.id if isinstance(n, ast.Name) else None
+
+    for st in body:
+        for n in ast.walk(st):
+            if isinstance(n, ast.Assign):
+                if isinstance(n.value, (ast.Subscript, ast.Attribute)):
+                    r = root(n.value)
+                    if r:
+                        out.add(r)
+                if isinstance(n.value, (ast.Name, ast.Subscript, ast.Attribute)):
+                    for t in n.targets:
+                        if isinstance(t, (ast.Subscript, ast.Attribute)):
+                            r = root(t)
+                            if r:
+                                out.add(r)
+            if isinstance(n, ast.Call) and isinstance(n.func, ast.Attribute) and n.func.attr in _MUTATORS \
+                    and any(isinstance(a, (ast.Name, ast.Subscript, ast.Attribute)) for a in n.args):
+                r = root(n.func.value)
+                if r:
+                    out.add(r)
+    return out
+
+
 class StmtExec(Exec):
     def __init__(self, ctx, registry):
         super().__init__(ctx)
@@ -234,6 +264,8 @@ class StmtExec(Exec):
         out = []
         for conds, val, exc, wbs in alts:
             out.append((conds, val, exc))
+        ghost_node, ghost_res = node, res
+        ghost_pre_env = dict(st.env)       # ghost lemma instances speak about the values just BEFORE the call (and `result`)
         # apply writebacks on the caller state (same fresh values on every alternative)
         for tgt, nv in writebacks:
             if isinstance(tgt, ast.Call) and isinstance(tgt.func, ast.Attribute) and tgt.func.attr == "get" and len(tgt.args) == 2 \
@@ -253,7 +285,45 @@ class StmtExec(Exec):
                     continue
                 raise Unsupported("a callee modifies an argument that is the result of a call (line %d)" % node.lineno)
             self.assign_to(tgt, nv, st)
+        facts = self.ghost_facts(ghost_node, ghost_res, State(ghost_pre_env, st.pc))
+        if facts:
+            out = [((conds + facts) if exc is None else conds, val, exc) for conds, val, exc in out]
         return out
+
+    def ghost_facts(self, node, res, st):
+        """instances of proved lemmas named by the contract for this call site (a ghost lemma invocation)"""
+        ga = getattr(self.ctx.contract, "ghost_after", None) or {}
+        fn = getattr(self.ctx, "func_ast", None)
+        if not ga or fn is None:
+            return []
+        txt = ast.unparse(node.func)
+        same = sorted((n for n in ast.walk(fn) if isinstance(n, ast.Call) and ast.unparse(n.func) == txt),
+                      key=lambda n: (n.lineno, n.col_offset))
+        k = next((i for i, n in enumerate(same) if n is node), None)
+        if k is None:
+            return []
+        todo = ga.get("%s#%d" % (txt, k + 1)) or []
+        if not todo:
+            return []
+        sm = self.ctx.contract.module
+        sub = SpecEval(self.ctx, self.ctx.contract.ns)
+        est = State(dict(st.env), st.pc)
+        est.env["result"] = res
+        facts = []
+        for lname, binding in todo:
+            lem = next((l for l in sm.lemmas if l["name"] == lname), None)
+            if lem is None:
+                raise Unsupported("ghost_after names an unknown lemma %s" % lname)
+            if lname not in (self.ctx.contract.use or ()):
+                raise Unsupported("ghost_after lemma %s must also be listed in `use` (so that it is proved first)" % lname)
+            env2 = {vn: coerce(sub.ev_str(src, est), lem["vars"][vn]) for vn, src in binding.items()}
+            if set(env2) != set(lem["vars"]):
+                raise Unsupported("ghost instance of %s must bind %s" % (lname, sorted(lem["vars"])))
+            st2 = State(env2)
+            hh = [truthy(sub.ev_str(h, st2)) for h in lem["hyps"]]
+            gg = truthy(sub.ev_str(lem["goal"], st2))
+            facts.append(z3.Implies(z3.And(*hh), gg) if hh else gg)
+        return facts
 
     # ---------------------------------------------------------------- statements
     def run_block(self, stmts, st):
@@ -649,6 +719,10 @@ class StmtExec(Exec):
                 h.env["_done%d" % k] = h.env["_done"] = done_sym
                 h.assume(z3.And(full == z3.Concat(done_sym.t, rest_sym.t), z3.Length(done_sym.t) == i_sym.t))
         self.assume_inv(spec, h)
+        csr = {n for n in _child_share_roots(s.body) if isinstance(h.env.get(n), V) and h.env[n].ty.mutable}
+        if csr:
+            # entries shared by an earlier iteration are still shared in a later one (and after the loop)
+            h.env["__childshared__"] = frozenset(set(h.env.get("__childshared__", ())) | csr)
         outs = []
         # exit
         ex = h.copy()
@@ -781,12 +855,19 @@ class StmtExec(Exec):
         h = st.copy()
         self.havoc(s.body, h, k, spec)
         self.assume_inv(spec, h)
+        csr = {n for n in _child_share_roots(s.body) if isinstance(h.env.get(n), V) and h.env[n].ty.mutable}
+        if csr:
+            h.env["__childshared__"] = frozenset(set(h.env.get("__childshared__", ())) | csr)
         outs = []
         c = truthy(self.ev(s.test, h))
         ex = h.copy().assume(z3.Not(c))
+        esc = {n for n in _escaping_names(s.body) if isinstance(ex.env.get(n), V) and ex.env[n].ty.mutable}
+        if esc:
+            ex.env["__aliased__"] = frozenset(set(ex.env.get("__aliased__", ())) | esc)
         if self.ctx.feasible(ex.pc):
             outs.append(Outcome("normal", ex))
         it = h.copy().assume(c)
+        head_al = set(it.env.get("__aliased__", ()))
         if self.ctx.feasible(it.pc):
             dec0 = None
             if spec.get("decreases"):
@@ -794,6 +875,10 @@ class StmtExec(Exec):
                 dec0 = coerce(sub.ev_str(spec["decreases"], State(dict(it.env), it.pc)), INT).t
             for o in self.run_block(s.body, it):
                 if o.kind in ("normal", "continue"):
+                    extra = {n for n in set(o.st.env.get("__aliased__", ())) - head_al if not _rebound_first(s.body, n)}
+                    if extra:
+                        raise Unsupported("names %s are still shared with a container at the end of a loop iteration (line %d)"
+                                          % (sorted(extra), s.lineno))
                     self.check_inv("inv_pres", spec, o.st, s.lineno, k)
                     if dec0 is not None:
                         sub = SpecEval(self.ctx, self.ctx.contract.ns)
